@@ -263,11 +263,15 @@ class _CellInterp(Interp):
             v = self.ev(e.args[0], env)
             if isinstance(v, K) and v.kind == "str":
                 return v
+            if isinstance(v, C) and isinstance(v.v, str):
+                return K("str", empty=(v.v == ""), tag=None if v.v == "" else ("ws" if not v.v.strip() else "text"))
             if isinstance(v, (K, C)):
                 return K("str", empty=False, tag="text")      # 'None', '0', 'False', a date ... never blank
             return TOP
         if isinstance(f, ast.Attribute) and name in ("strip", "lstrip", "rstrip") and not e.args:
             v = self.ev(f.value, env)
+            if isinstance(v, C) and isinstance(v.v, str):
+                return C(getattr(v.v, name)())
             if isinstance(v, K) and v.kind == "str":
                 if v.empty or v.tag == "ws":
                     return K("str", empty=True) if name == "strip" or v.empty else TOP
